@@ -30,7 +30,7 @@ ASSUMPTIONS = [
     "arg*: with skipna=True an all-NaN fibre may raise NumPy's ValueError",
     "centered differences need numeric labels; centered + keepaxis must raise ValueError",
 ]
-MANDATORY = ["cum:narrow-dtype", "cumsum", "cumprod", "diff:backward", "diff:forward", "diff:centered", "diff:keepaxis", "diff:n>=size", "diff:int-data-keepaxis",
+MANDATORY = ["diff:positional", "cum:narrow-dtype", "cumsum", "cumprod", "diff:backward", "diff:forward", "diff:centered", "diff:keepaxis", "diff:n>=size", "diff:int-data-keepaxis",
              "arg:whole", "arg:axis", "arg:ties", "arg:nan", "arg:1d-axis", "labels:str", "labels:unsorted", "axis:default", "axis:not-last"]
 
 
@@ -164,6 +164,22 @@ def _check_axes(res, dims, labels, what, sig):
         check(core.same_labels(res.axes[i].values, labels[i]), "labels", {"what": what, "dim": d, "got": core.jsonable(res.axes[i].values), "expected": core.jsonable(labels[i])}, sig)
 
 
+def _tag_axes(a):
+    """axes carry metadata and (numeric ones) a tolerance of their own: 'unchanged' includes them"""
+    for i, ax_ in enumerate(a.axes):
+        ax_.attrs["long_name"] = "axis %d" % i
+        ax_.attrs["lst"] = [i]
+        if ax_.values.dtype.kind in "if" and i % 2 == 0:
+            ax_.tol = 1e-9
+
+
+def _axes_kept(res, a, which, what, sig):
+    for i in which:
+        d = a.dims[i]
+        check(core.attrs_equal(res.axes[d].attrs, a.axes[i].attrs) and res.axes[d].tol == a.axes[i].tol, "axis-not-unchanged",
+              {"what": what, "dim": d, "attrs": core.jsonable(dict(res.axes[d].attrs)), "tol": res.axes[d].tol, "expected_attrs": core.jsonable(dict(a.axes[i].attrs)), "expected_tol": a.axes[i].tol}, sig)
+
+
 def _cl_axis(cl, spec, ax, form):
     if form == "default":
         cl.add("axis:default")
@@ -181,12 +197,14 @@ def run_cum(case):
     spec, op = case["spec"], case["op"]
     kw, ax = _axis_kw(case["axis_form"], spec, case["ax"])
     a = core.build(spec)
+    _tag_axes(a)
     vals = core.spec_values(spec)
     snap = core.snapshot(a)       # (core.spec_values applies spec["dtype"]: the history-laden build has the narrow type too)
     what = "%s(%s) dims=%s labels=%s vals=%s dtype=%s" % (op, kw, spec["dims"], spec["labels"], spec["vals"], vals.dtype)
     sig = {"op": op}
     res = lib(lambda: getattr(a, op)(**kw), what=what, sig=sig)
     _check_axes(res, spec["dims"], spec["labels"], what, sig)
+    _axes_kept(res, a, range(len(spec["dims"])), what, sig)
     with np.errstate(all="ignore"):
         exp = getattr(np, op)(vals, axis=ax)       # NumPy's own result, accumulator type included
     _same_values(res.values, exp, what, sig, tol=(op == "cumprod" and vals.dtype.kind == "f"))
@@ -201,6 +219,7 @@ def run_diff(case):
     spec, scheme, n, keep = case["spec"], case["scheme"], case["n"], case["keepaxis"]
     kw, ax = _axis_kw(case["axis_form"], spec, case["ax"])
     a = core.build(spec)
+    _tag_axes(a)
     snap = core.snapshot(a)
     vals = core.spec_values(spec)
     labs = spec["labels"][ax]
@@ -220,6 +239,12 @@ def run_diff(case):
         cl.add("diff:centered+keepaxis->ValueError")
     else:
         res = lib(lambda: a.diff(**call_kw), what=what, sig=sig)
+        if "axis" in kw:
+            # the documented parameter order diff(axis, scheme, keepaxis, n), all arguments given by position
+            res_p = lib(lambda: a.diff(kw["axis"], scheme, bool(keep), n), what=what + " [arguments by position]", sig=sig)
+            core.expect_equal_arrays(res_p, res, what + " [arguments by position vs keywords]", sig=sig)
+            cl.add("diff:positional")
+        _axes_kept(res, a, [i for i in range(len(spec["dims"])) if i != ax or keep], what, sig)
         d = np.diff(vals, n=n, axis=ax)
         k = min(n, size)
         if keep:
